@@ -13,6 +13,9 @@ type RewriteSpec struct {
 	// OverlayAs, when set, is the path the rewritten (single) file replaces
 	// instead of its own.
 	OverlayAs string
+	// Pattern, when set, names the package by import path (a dependency in the
+	// module cache), loaded from the repo under test's module; Files are base names.
+	Pattern string
 }
 
 type TierParams struct {
@@ -30,6 +33,13 @@ type Spec struct {
 	GoBin      string
 	TestBinary bool
 	GenN       int // C03: programs per generated batch
+	// BuildTags are passed to go build for the driver (drivers that only
+	// compile against the overlay hide behind a tag).
+	BuildTags string
+	// Alt: flavours served by a different driver / toolchain / overlay (C16's
+	// \"sim\" flavour); Tag distinguishes the work directories.
+	Alt map[string]*Spec
+	Tag string
 	// CrashOracle: when a worker process dies (Go runtime fatal error in the
 	// code under test), re-execute the plan it was running; if the crash
 	// reproduces it is reported as a violation with this oracle id.
@@ -190,15 +200,25 @@ var specs = map[string]*Spec{
 		ID: "C16", Title: "Remaining machine primitives meet their modelled contracts (WaitTimeout clause)",
 		Driver: "./drivers/c16drv", ModFile: "go.mod", GoBin: "/opt/veriftools/go1.26.8/bin/go", TestBinary: true,
 		CrashOracle: "wt.crash",
-		Rewrites:    []RewriteSpec{{Dir: "machine", Files: []string{"prims.go"}, Opt: rewrite.Options{Yields: true, YieldCall: "synyield.Point", YieldImport: "verif/synyield"}}},
-		Flavours:    []string{"plain"},
-		Quick:       TierParams{Runs: 40000, Budget: 5 * time.Minute},
-		Thorough:    TierParams{Budget: 10 * time.Minute},
-		Level:       "exploration",
+		Alt: map[string]*Spec{"sim": {
+			ID: "C16", Tag: "sim", Driver: "./drivers/c16sim", ModFile: "go.mod", BuildTags: "verifoverlay",
+			Rewrites: []RewriteSpec{
+				{Dir: "machine", Files: []string{"prims.go", "proph.go"}, Opt: rewrite.Options{Imports: map[string]string{"sync": "verif/simsync", "time": "verif/simtime"}, Yields: true, GoStmt: true, Channels: true}},
+				{Pattern: "github.com/goose-lang/primitive", Files: []string{"prims.go"}, Opt: rewrite.Options{Imports: map[string]string{"sync": "verif/simsync", "time": "verif/simtime"}, Yields: true, GoStmt: true, Channels: true}},
+			},
+		}},
+		Rewrites: []RewriteSpec{{Dir: "machine", Files: []string{"prims.go"}, Opt: rewrite.Options{Yields: true, YieldCall: "synyield.Point", YieldImport: "verif/synyield"}}},
+		Flavours: []string{"plain", "sim"},
+		Quick:    TierParams{Runs: 40000, RaceRuns: 30000, Budget: 5 * time.Minute},
+		Thorough: TierParams{Budget: 12 * time.Minute},
+		Level:    "exploration",
 		Rule: "each plan is one sync.Cond, a sequence of 1-3 machine.WaitTimeout calls (timeouts 0,1,2,10,100,10000,2^32 ms or random < 300 ms; optional pauses with the lock released between calls) and 0-4 concurrent events at distinct simulated instants aimed before / just before / just after / long after a timeout: Signal, Broadcast, or a plain cond.Wait waiter; executed with the real machine.WaitTimeout -> primitive.WaitTimeout, real sync and time under testing/synctest's fake clock (go1.26.8). " +
 			"Oracles against an ideal timed wait on a FIFO condition variable: returns holding the lock (TryLock fails), within 1 ms of simulated time after the timeout, within 1 ms after the Broadcast/Signal that reaches it, never panics, the bubble drains. Every 64th plan is the auxiliary, non-simulation assertion set for the three pure clauses (UInt64ToString, MapClear, Assume/Assert); it is not counted as non-trivial. " +
-			"Non-trivial: at least one concurrent event or more than one call; distinct = distinct (plan, observed return times).",
-		Components:   map[string]string{"machine/prims.go WaitTimeout": "real", "github.com/goose-lang/primitive v0.1.0 WaitTimeout": "real", "sync.Cond, sync.Mutex, goroutines": "real", "time (clock, timers)": "stub: testing/synctest fake clock of go1.26.8; goroutine choice inside the bubble is the Go runtime's (events are placed at distinct instants so that it cannot change the outcome)"},
+			"A third of the plans is the perturb batch: events tie with call starts/expiries, runtime.Gosched nudges are spliced into machine/prims.go, order is recovered from stamps taken under the mutex; its outcome is the Go runtime's choice, so its replays reproduce with high probability only. " +
+			"The sim flavour runs the same kind of plans (ties included) on a second driver in which machine/prims.go AND the primitive dependency's prims.go are compiled with sync->simsync, time->simtime, channels and select->simchan, go->simrt.Go and a yield before every statement, under the deterministic simrt scheduler: every interleaving between caller, helper goroutine, timer and signallers and every tie is decided by the tape and replays exactly. " +
+			"Non-trivial: at least one concurrent event or more than one call (synctest), more than three context switches (sim); distinct = distinct (plan, observed return times) resp. event-log fingerprints.",
+		Components:   map[string]string{"machine/prims.go WaitTimeout": "real", "github.com/goose-lang/primitive v0.1.0 WaitTimeout": "real", "sync.Cond, sync.Mutex, goroutines": "real", "time (clock, timers)": "stub: testing/synctest fake clock of go1.26.8; goroutine choice inside the bubble is the Go runtime's (events are placed at distinct instants so that it cannot change the outcome)",
+			"sim flavour": "machine/prims.go and primitive@v0.1.0/prims.go real, statement-level yields; sync, time, channels/select, goroutine scheduling are stubs (simsync, simtime, simchan, simrt)"},
 		Assumptions:  []string{"testing/synctest cannot advance time while a goroutine is blocked on a sync.Mutex, so no task holds the lock across simulated time (lock-hold delays are not explored)", "early (spurious) returns are allowed, as in the GooseLang model; only the upper bounds are checked"},
 		ExpectProbes: []string{"woken_by_signal", "woken_by_broadcast", "timed_out", "aux_assertions"},
 	},
